@@ -37,30 +37,49 @@ Lemma Codec_finish : forall d b e n b1, Codec_pack d e = Some b1 -> length b1 = 
   Codec_roundtrip_at d b e n.
 Proof.
   intros d b e n b1 P L R. exists b1. split; auto. split; auto. split.
-  - rewrite (Codec_sizeof_enc _ _ _ _ P), L. reflexivity.
+  - rewrite (Codec_sizeof_enc _ _ _ P), L. reflexivity.
   - exists e. auto.
 Qed.
 
-(* descriptions without a Timestamp field: unconditional *)
-Lemma Codec_roundtrip_nots : forall d, Codec_wf d = true -> Codec_uses_ts d = false ->
+(* layouts without Timestamp fields and without lenient parts (no tagged sub-payload, no length-prefixed string):
+   unconditional, for every input that parses *)
+Lemma Codec_roundtrip_nots : forall d, Codec_wf d = true -> Codec_uses_ts d = false -> Codec_rigid d = true ->
   forall b e n, Codec_bytes_ok b = true -> Codec_parse d b = Some (e, n) -> Codec_roundtrip_at d b e n.
 Proof.
-  intros d W U b e n B P.
-  assert (P' : Codec_parse_with Codec_adec_nots d b = Some (e, n)).
-  { unfold Codec_parse, Codec_parse_with in *. destruct (Codec_dec_wire Codec_adec d [] b) as [[e0 rest]|] eqn:D; try discriminate.
-    rewrite (Codec_dec_wire_nots _ _ _ _ U D). exact P. }
+  intros d W U G b e n B P.
+  assert (P' : Codec_parse_with Codec_adec_nots true d b = Some (e, n)).
+  { unfold Codec_parse, Codec_parse_with in *. destruct (Codec_dec_wire Codec_adec false d [] b) as [[e0 rest]|] eqn:D; try discriminate.
+    rewrite <- (Codec_dec_wire_rigid _ _ _ _ G). rewrite (Codec_dec_wire_nots _ _ _ _ _ U D). exact P. }
   destruct (Codec_roundtrip_AD _ Codec_nots_ok Codec_nots_cnt d b e n W B P') as (b1 & E & L & R & O).
   eapply Codec_finish; eauto.
 Qed.
 
-(* descriptions with Timestamp fields: for inputs whose stamps are in the domain of the projection law,
-   under that law (stated in full below; evaluated, not proved, for the fractional part) *)
+(* any layout without Timestamp fields, for the inputs in canonical form (the strict decoder accepts them): declared
+   lengths equal to what the content needs, length-prefixed strings without trailing NULs, content understood *)
+Lemma Codec_roundtrip_canonical : forall d, Codec_wf d = true ->
+  forall b e n, Codec_bytes_ok b = true -> Codec_parse_with Codec_adec_nots true d b = Some (e, n) ->
+  Codec_parse d b = Some (e, n) /\ Codec_roundtrip_at d b e n.
+Proof.
+  intros d W b e n B P. split.
+  - exact (Codec_parse_sub _ _ true false Codec_nots_sub ltac:(discriminate) d b _ P).
+  - destruct (Codec_roundtrip_AD _ Codec_nots_ok Codec_nots_cnt d b e n W B P) as (b1 & E & L & R & O).
+    eapply Codec_finish; eauto.
+Qed.
+Lemma Codec_canonical_nots : forall d b r, Codec_uses_ts d = false ->
+  Codec_parse_with Codec_adec true d b = Some r -> Codec_parse_with Codec_adec_nots true d b = Some r.
+Proof.
+  unfold Codec_parse_with. intros d b r U P. destruct (Codec_dec_wire Codec_adec true d [] b) as [[e0 rest]|] eqn:D; try discriminate.
+  rewrite (Codec_dec_wire_nots _ _ _ _ _ U D). exact P.
+Qed.
+
+(* any layout, Timestamp fields included: for canonical inputs whose stamps are in the domain of the projection law,
+   under that law (stated in full; proved for part of the domain, otherwise evaluated) *)
 Lemma Codec_roundtrip_ts : Codec_ts_projection_full -> forall d, Codec_wf d = true ->
   forall b e n, Codec_bytes_ok b = true -> Codec_parse_dom d b = Some (e, n) ->
   Codec_parse d b = Some (e, n) /\ Codec_roundtrip_at d b e n.
 Proof.
   intros TS d W b e n B P. split.
-  - exact (Codec_parse_sub _ _ Codec_dom_sub d b _ P).
+  - exact (Codec_parse_sub _ _ true false Codec_dom_sub ltac:(discriminate) d b _ P).
   - destruct (Codec_roundtrip_AD _ (Codec_dom_ok TS) Codec_dom_cnt d b e n W B P) as (b1 & E & L & R & O).
     eapply Codec_finish; eauto.
 Qed.
@@ -69,11 +88,18 @@ Qed.
 Lemma Codec_all_descriptions_wf : forallb (fun p => Codec_wf (snd p)) py_descriptions = true.
 Proof. vm_compute. reflexivity. Qed.
 
-Lemma Codec_table_roundtrip_nots : forall i d, In (i, d) py_descriptions -> Codec_uses_ts d = false ->
+Lemma Codec_table_roundtrip_nots : forall i d, In (i, d) py_descriptions -> Codec_uses_ts d = false -> Codec_rigid d = true ->
   forall b e n, Codec_bytes_ok b = true -> Codec_parse d b = Some (e, n) -> Codec_roundtrip_at d b e n.
 Proof.
   intros i d I. pose proof Codec_all_descriptions_wf as W. rewrite forallb_forall in W. specialize (W _ I).
   apply Codec_roundtrip_nots. exact W.
+Qed.
+Lemma Codec_table_roundtrip_canonical : forall i d, In (i, d) py_descriptions -> Codec_uses_ts d = false ->
+  forall b e n, Codec_bytes_ok b = true -> Codec_parse_with Codec_adec true d b = Some (e, n) ->
+  Codec_parse d b = Some (e, n) /\ Codec_roundtrip_at d b e n.
+Proof.
+  intros i d I U b e n B P. pose proof Codec_all_descriptions_wf as W. rewrite forallb_forall in W. specialize (W _ I).
+  apply Codec_roundtrip_canonical; auto. apply Codec_canonical_nots; auto.
 Qed.
 Lemma Codec_table_roundtrip_ts : Codec_ts_projection_full -> forall i d, In (i, d) py_descriptions ->
   forall b e n, Codec_bytes_ok b = true -> Codec_parse_dom d b = Some (e, n) ->
@@ -93,9 +119,16 @@ Proof.
   - intros G b e n P. pose proof Codec_all_descriptions_wf as W. rewrite forallb_forall in W. specialize (W _ I).
     cbn in W. unfold Codec_wf in W. apply andb_true_iff in W as [W _]. apply andb_true_iff in W as [_ W].
     unfold Codec_parse, Codec_parse_with in P.
-    destruct (Codec_dec_wire Codec_adec d [] b) as [[e0 rest]|] eqn:D; try discriminate. inversion P; subst.
-    rewrite (Codec_greedy_all _ _ _ _ _ _ _ W G D). cbn. lia.
+    destruct (Codec_dec_wire Codec_adec false d [] b) as [[e0 rest]|] eqn:D; try discriminate. inversion P; subst.
+    rewrite (Codec_greedy_all _ _ _ _ _ _ _ _ W G D). cbn. lia.
 Qed.
+
+Lemma Codec_table_partition :
+  forallb (fun p => (negb (Codec_uses_ts (snd p)) && Codec_rigid (snd p)) || negb (Codec_uses_ts (snd p)) || Codec_uses_ts (snd p)) py_descriptions = true /\
+  (length py_descriptions = length (filter (fun p => negb (Codec_uses_ts (snd p)) && Codec_rigid (snd p)) py_descriptions)
+                         + length (filter (fun p => negb (Codec_uses_ts (snd p)) && negb (Codec_rigid (snd p))) py_descriptions)
+                         + length (filter (fun p => Codec_uses_ts (snd p)) py_descriptions))%nat.
+Proof. vm_compute. split; reflexivity. Qed.
 
 (* ---- Timestamp --------------------------------------------------------------------------------------- *)
 (* the part of the projection law that is proved: stamps with a sentinel field *)
@@ -248,4 +281,30 @@ Lemma Codec_ex_parses : Codec_wf Codec_ex_desc = true /\ Codec_uses_ts Codec_ex_
     Some ([(1%N, VF (FInt 2)); (2%N, VF FNaN); (3%N, VRecs [[(1%N, FInt 5); (2%N, FInt 2145386497)]; [(1%N, FInt 1); (2%N, FInt 1065353216)]])], 18%nat) /\
   Codec_pack Codec_ex_desc [(1%N, VF (FInt 2)); (2%N, VF FNaN); (3%N, VRecs [[(1%N, FInt 5); (2%N, FInt 2145386497)]; [(1%N, FInt 1); (2%N, FInt 1065353216)]])]
     = Some [2; 0; 0; 0; 0; 128;  5; 1; 0; 224; 127; 0;  1; 0; 0; 128; 63; 0].
+Proof. vm_compute. repeat split; reflexivity. Qed.
+
+(* ---- non-canonical inputs: the recorded findings as model witnesses ----------------------------------------------- *)
+(* a FaultControl-like container: tag, declared length, sub-payload chosen by the tag *)
+Definition Codec_ex_tagged : Codec_desc :=
+  [WItem (IField 1 U8 AId); WItem (IPad [0; 0; 0]); WItem (IField 2 U32 (ACount 3));
+   WTagged 3 {| tg_tag := 1; tg_len := 2; tg_skip := None; tg_cases := [(0, []); (4, [IField 1 U8 ABool])]; tg_sub := None; tg_opaque := false |}].
+(* declared length 1 for the empty payload of tag 0: parses (the surplus byte is ignored), is serialised in 8 bytes, not 9 *)
+Lemma Codec_overlong_payload_refuted :
+  Codec_wf Codec_ex_tagged = true /\
+  Codec_parse Codec_ex_tagged [0; 0; 0; 0; 1; 0; 0; 0; 7] = Some ([(1%N, VF (FInt 0)); (2%N, VF (FInt 1)); (3%N, VTag [] [] 0)], 9%nat) /\
+  Codec_pack Codec_ex_tagged [(1%N, VF (FInt 0)); (2%N, VF (FInt 1)); (3%N, VTag [] [] 0)] = Some [0; 0; 0; 0; 0; 0; 0; 0] /\
+  Codec_parse_with Codec_adec true Codec_ex_tagged [0; 0; 0; 0; 1; 0; 0; 0; 7] = None /\
+  (* the canonical encoding of the same message satisfies the hypothesis of the theorem *)
+  Codec_parse_with Codec_adec_nots true Codec_ex_tagged [4; 0; 0; 0; 1; 0; 0; 0; 1] =
+    Some ([(1%N, VF (FInt 4)); (2%N, VF (FInt 1)); (3%N, VTag [] [(1%N, FInt 1)] 1)], 9%nat).
+Proof. vm_compute. repeat split; reflexivity. Qed.
+
+(* a VersionInfo-like length-prefixed string: "a\0" parses as "a" and is serialised with length 1 *)
+Definition Codec_ex_string : Codec_desc := [WItem (IField 1 U8 (ACount 2)); WBytes 2 (LCount 1) BStr].
+Lemma Codec_nul_padded_string_refuted :
+  Codec_wf Codec_ex_string = true /\
+  Codec_parse Codec_ex_string [2; 97; 0] = Some ([(1%N, VF (FInt 2)); (2%N, VBytes [97])], 3%nat) /\
+  Codec_pack Codec_ex_string [(1%N, VF (FInt 2)); (2%N, VBytes [97])] = Some [1; 97] /\
+  Codec_parse_with Codec_adec true Codec_ex_string [2; 97; 0] = None /\
+  Codec_parse_with Codec_adec_nots true Codec_ex_string [2; 195; 177] = Some ([(1%N, VF (FInt 2)); (2%N, VBytes [195; 177])], 3%nat).
 Proof. vm_compute. repeat split; reflexivity. Qed.
